@@ -122,6 +122,7 @@ func genSeq(r *lib.Rng, tier string) *Case {
 			h := live[r.Intn(len(live))]
 			if sh.ready(h) {
 				emit(Op{K: "recv", H: h})
+				sh.recvArr(h)
 			}
 		case k < 17 && len(live) > 0: // close
 			h := live[r.Intn(len(live))]
@@ -180,6 +181,7 @@ func genSeq(r *lib.Rng, tier string) *Case {
 		if r.Chance(1, 2) {
 			for i, n := 0, r.Intn(9); i < n; i++ {
 				emit(Op{K: "recv", H: h})
+				sh.recvArr(h)
 			}
 		}
 		if !sh.hs[h].closed && r.Chance(3, 4) {
